@@ -1171,4 +1171,44 @@ theorem accessorsAfter_agree (ns : NS) (tf : List Bool) (t : Top)
         rw [propAfter_eq_of_intro hi]
         exact h4 f hf hfm pn hs p hfp
 
+/-- `AccAgree`, executable -/
+def accAgreeB (ps : List Prop') (ms : List Sub) : Bool :=
+  ps.all (fun p => match p.setter with
+    | none => true
+    | some m => ms.any (fun f => f.isMethod && f.name == m && f.setProp == some p.name))
+  && ps.all (fun p => match p.getter with
+    | none => true
+    | some m => ms.any (fun f => f.isMethod && f.name == m && f.getProp == some p.name))
+  && ms.all (fun f => !f.isMethod || match f.setProp with
+    | none => true
+    | some pn => match ps.find? (fun p => p.name == pn) with
+      | none => true
+      | some p => p.setter == some f.name)
+  && ms.all (fun f => !f.isMethod || match f.getProp with
+    | none => true
+    | some pn => match ps.find? (fun p => p.name == pn) with
+      | none => true
+      | some p => p.getter == some f.name)
+
+theorem accAgree_of_accAgreeB {ps : List Prop'} {ms : List Sub} (h : accAgreeB ps ms = true) : AccAgree ps ms := by
+  simp only [accAgreeB, Bool.and_eq_true, List.all_eq_true] at h
+  obtain ⟨⟨⟨h1, h2⟩, h3⟩, h4⟩ := h
+  refine ⟨?_, ?_, ?_, ?_⟩
+  · intro p hp m hm
+    have := h1 p hp
+    simp only [hm, List.any_eq_true, Bool.and_eq_true, beq_iff_eq] at this
+    obtain ⟨f, hf, ⟨a, b⟩, c⟩ := this
+    exact ⟨f, hf, a, b, c⟩
+  · intro p hp m hm
+    have := h2 p hp
+    simp only [hm, List.any_eq_true, Bool.and_eq_true, beq_iff_eq] at this
+    obtain ⟨f, hf, ⟨a, b⟩, c⟩ := this
+    exact ⟨f, hf, a, b, c⟩
+  · intro f hf hm pn hs p hfind
+    have := h3 f hf
+    simpa [hm, hs, hfind] using this
+  · intro f hf hm pn hs p hfind
+    have := h4 f hf
+    simpa [hm, hs, hfind] using this
+
 end GIVerif.Introspectable
